@@ -837,3 +837,46 @@ for _p in ("C13", "C20", "C17", "C18", "C19"):
 
 PROPS["C09"]["model"] = True
 PROPS["C09"]["tags"] = PROPS["C09"]["tags"] + ["corr"]
+
+def scale_case(c, k):
+    """multiplies every coordinate of the point-carrying operations by 2^k (exact)"""
+    f = 2.0 ** k
+    out = []
+    for o in c.ops:
+        t = o.split()
+        if t[0] in ("ins", "insh", "lrm", "loc", "loch", "locv", "nn", "bary", "nnw"):
+            t[1] = str(bits(gen.from_bits(int(t[1])) * f)); t[2] = str(bits(gen.from_bits(int(t[2])) * f))
+        elif t[0] == "adde":
+            for j in (1, 2, 4, 5):
+                t[j] = str(bits(gen.from_bits(int(t[j])) * f))
+        elif t[0] == "addes":
+            n = int(t[1])
+            for j in range(n):
+                t[3 + 3 * j] = str(bits(gen.from_bits(int(t[3 + 3 * j])) * f)); t[4 + 3 * j] = str(bits(gen.from_bits(int(t[4 + 3 * j])) * f))
+        elif t[0] in ("bulk", "bulks", "bulkc", "bulkcs"):
+            n = int(t[1])
+            for j in range(n):
+                t[2 + 3 * j] = str(bits(gen.from_bits(int(t[2 + 3 * j])) * f)); t[3 + 3 * j] = str(bits(gen.from_bits(int(t[3 + 3 * j])) * f))
+        out.append(" ".join(t))
+    c.ops = out
+    c.meta["scale"] = "2^%d" % k
+    return c
+
+_gen_C18_base = gen_C18
+def gen_C18_scaled(r, tier):
+    out = _gen_C18_base(r, tier)
+    for c in out:
+        if r.chance(0.5):
+            k = r.choice([-20, -12, 10, 20]) if c.scalar == "f32" else r.choice([-60, -40, -30, -10, 10, 30, 60])
+            scale_case(c, k)
+    return out
+PROPS["C18"]["gen"] = gen_C18_scaled
+_gen_C19_base = gen_C19
+def gen_C19_scaled(r, tier):
+    out = _gen_C19_base(r, tier)
+    for c in out:
+        if r.chance(0.4):
+            k = r.choice([-20, -12, 10, 20]) if c.scalar == "f32" else r.choice([-60, -40, -30, -10, 10, 30, 60])
+            scale_case(c, k)
+    return out
+PROPS["C19"]["gen"] = gen_C19_scaled
